@@ -37,7 +37,9 @@
 // outermost, sharded index - all 20 directions (6 axes + 8 diagonals + 6 near-pole letters, see
 // direction_alphabet()) x all RNG scripts are run
 // with ample secondary storage (every 8th script with exactly the needed number of free slots),
-// plus, per direction, one call with 0 and one with need-1 free slots.
+// plus, per direction, one call with 0 and one with need-1 free slots, and for the models that
+// need >= 2 secondaries (bh, eplusgg, pe with relaxation) two calls on a stack whose TOTAL
+// capacity is need-1 (full of sentinels / empty): explicit failure, stack untouched.
 //
 // RNG scripts (see struct Script): quick = all 5^4 prefixes over vf::alphabet_u5() on the first
 // four canonicals; thorough = those + every script with at most 2 forced canonicals (letters
@@ -437,7 +439,7 @@ static void run_config(Ctx& C, Spec const& S)
     };
     uint64_t const cfg_hash = vf::hash_str(S.cid);
     uint32_t seen_bits = 0;
-    uint64_t n_eval = 0, n_fail = 0, n_mom = 0, max_words = 0, last_nt = 0, last_oc = 0;
+    uint64_t n_eval = 0, n_fail = 0, n_tiny = 0, n_mom = 0, max_words = 0, last_nt = 0, last_oc = 0;
 
     for (size_t di = 0; di < dirs.size(); ++di)
     {
@@ -491,6 +493,50 @@ static void run_config(Ctx& C, Spec const& S)
                                     unsigned(env.stack_size()), int(env.sentinels_intact()),
                                     where(fs, si).c_str()));
             }
+        }
+
+        // ---- the WHOLE stack is smaller than one request (capacity = need - 1) ----
+        // request > total capacity: `start + count > capacity` must not be evaluated in a form
+        // that wraps (start > capacity - count).  Both with the tiny stack full of sentinels and
+        // completely empty the call must fail explicitly and leave the stack untouched.
+        if (S.need >= 2)
+        {
+            unsigned const tiny = S.need - 1;
+            env.resize_secondaries(tiny);
+            unsigned const classes[2] = {0u, tiny};
+            for (int k = 0; k < 2; ++k)
+            {
+                unsigned fs = classes[k];
+                env.set_free_slots(fs);
+                auto size0 = env.stack_size();
+                size_t si = (di * 7 + 2 + k) % C.scripts.size();
+                extreme_script = C.scripts[si].extreme();
+                eng.reset(&C.scripts[si], R.seed() * 1000003ull + si);
+                Interaction r;
+                try
+                {
+                    r = S.call(eng);
+                }
+                catch (DrawLimit const&)
+                {
+                    report(sig_of("draw-bound"), "more than 10^4 words drawn; " + where(fs, si));
+                    continue;
+                }
+                ++n_eval;
+                ++n_fail;
+                ++n_tiny;
+                ++C.interactions;
+                if (r.action != Interaction::Action::failed || !r.secondaries.empty())
+                    report(sig_of("request-above-total-capacity-not-explicit-failure"),
+                           fmt("stack capacity %u (free %u) < need %u but result is %s; %s", tiny, fs,
+                               S.need, describe(r).c_str(), where(fs, si).c_str()));
+                if (env.stack_size() != size0 || !env.sentinels_intact())
+                    report(sig_of("request-above-total-capacity-partial-emission"),
+                           fmt("stack capacity %u: size %u -> %u, prefix intact=%d; %s", tiny,
+                               unsigned(size0), unsigned(env.stack_size()),
+                               int(env.sentinels_intact()), where(fs, si).c_str()));
+            }
+            env.resize_secondaries(cap);
         }
 
         // ---- enough storage: all scripts ----
@@ -680,6 +726,8 @@ static void run_config(Ctx& C, Spec const& S)
     R.maxi((S.model + ".words").c_str(), max_words);
     if (n_fail)
         R.tag(S.model + ":storage-exhausted", n_fail);
+    if (n_tiny)
+        R.tag(S.model + ":request-above-total-capacity", n_tiny);
     R.tag(S.model + ":configs");
     if (idx % 97 == 0)
         R.sample(fmt("%s x %zu directions x %zu scripts (+ exhausted-storage calls)",
